@@ -9,8 +9,8 @@ use jxlw::container::*;
 use serde_json::json;
 use std::collections::BTreeSet;
 
-const N_REGULAR: usize = 26;
-const N_LAST: usize = 5;
+pub const N_REGULAR: usize = 26;
+pub const N_LAST: usize = 5;
 
 fn payload(k: usize, n: usize) -> Vec<u8> {
     (0..n).map(|j| (0x10 * (k + 1) + j) as u8).collect()
@@ -57,11 +57,15 @@ fn element(e: usize, k: usize) -> BoxSpec {
         28 => BoxSpec::jxlp(1, true, ToEof, &payload(k, 3)),
         29 => BoxSpec::new(b"Exif", ToEof, &exif(k)),
         30 => BoxSpec::brob(b"xml ", ToEof, &payload(k, 4)),
+        // further undersized brob boxes: every payload length below the 4-byte inner type (2 bytes is element 19)
+        31 => BoxSpec::new(b"brob", S32, b"xml"),
+        32 => BoxSpec::new(b"brob", S32, &[]),
+        33 => BoxSpec::new(b"brob", S64, b"E"),
         _ => unreachable!(),
     }
 }
 
-fn build(seq: &[u8]) -> Vec<u8> {
+pub fn build(seq: &[u8]) -> Vec<u8> {
     let boxes: Vec<BoxSpec> = seq.iter().enumerate().map(|(k, &e)| element(e as usize, k)).collect();
     mux(&boxes)
 }
@@ -300,7 +304,7 @@ pub fn main(args: &crate::Args) {
     }
     let mut rep = Report::new("C10", &args.tier, "model_checking");
     let quick = rep.is_quick();
-    let regular: Vec<u8> = (0..N_REGULAR as u8).collect();
+    let regular: Vec<u8> = (0..N_REGULAR as u8).chain(31..=33).collect();
     let last: Vec<u8> = (N_REGULAR as u8..(N_REGULAR + N_LAST) as u8).collect();
     let mut seqs = Vec::new();
     let max_full = if quick { 3 } else { 4 };
@@ -322,7 +326,7 @@ pub fn main(args: &crate::Args) {
     }
     rep.rule = format!(
         "all box sequences of length <= {max_full} over a {}-element box alphabet (+{} run-to-EOF boxes in final position), plus length {long_len}{} over a reduced alphabet; each file parsed whole, at EVERY 2-chunking, byte-at-a-time and in fixed chunk sizes 2/3/5/7 (3-chunkings for length <= 2), unconsumed bytes re-offered; oracle = one-pass reference demuxer (jxlw::container). A file is non-trivial if it is rejected by the reference or delivers codestream/aux bytes; distinctness by box sequence.",
-        N_REGULAR, N_LAST, if quick { "" } else { " and 6" }
+        N_REGULAR + 3, N_LAST, if quick { "" } else { " and 6" }
     );
     let results = par_map(&seqs, n_threads(), |i, seq| check_file(seq, seq.len() <= 2, i % 37 == 0 || seq.len() <= 2));
     for (seq, r) in seqs.iter().zip(&results) {
